@@ -179,6 +179,25 @@ CLAIMED["C18"] = (
     "DESIGN.md §4 C18",
 )
 
+CLAIMED["C12"] = (
+    "Per-path (amend) ignores are proved, over a component-list model of pathlib/realpath with the file system (a finite symlink map, "
+    "or any resolver R) as a parameter, to silence a diagnostic iff some path-scoped entry lists its code or category and the entry "
+    "path, joined onto the directory of the config file in use and resolved, is a component-wise prefix of the resolved file "
+    "(amend_iff_under_path). String-prefix siblings never match (src vs src2); files elsewhere, other codes, pathless entries and "
+    "unresolvable entries are unaffected; a verdict is always delivered when the file itself resolves; the verdict does not depend on "
+    "the working directory once paths are absolute; `resolve` results are canonical (..-free, idempotent, fuel-monotone). 62 theorems, "
+    "all unbounded. Checked against is_ignored_via_amend in-process (~11k cases quick) and the CLI on real directory trees with "
+    "symlinks in both directions, loops, config files elsewhere and different working directories, with a kernel-canonical-name oracle "
+    "(/proc/self/fd).",
+    COMMON_NOTE
+    + "Trusted: that the model's walk equals os.path.realpath(strict=False) + Path.resolve's loop check and that parsePath equals Path() "
+    "(correspondence on real and adversarial symlink trees, not a theorem); the kernel oracle via /proc/self/fd. The model "
+    "over-approximates `loop/../x` as unresolvable where CPython recovers lexically. A symlinked config FILE anchors at the link's "
+    "directory. mypy's naming of files for directory arguments is taken from the output.",
+    "Lean 4 induction over component lists and a fuelled symlink walk; resolver-parametric theorems; real-tree correspondence with a kernel oracle",
+    "DESIGN.md §4 C12",
+)
+
 NOT_YET = "check not built yet in this round (work in progress; see DESIGN.md §8 order of work)"
 
 
